@@ -144,7 +144,9 @@ Lemma eval_S f e s :
           | ToDec => if in_range 168 true (z * DEC) then ret (VInt (z * DEC)) s1 else Fail Revert
           | FromDec =>
               match t with
-              | TInt bits sg => if in_range bits sg (Z.quot z DEC) then ret (VInt (Z.quot z DEC)) s1 else Fail Revert
+              (* the scaled input is bounds-checked BEFORE truncation: convert(255.1, uint8) reverts *)
+              | TInt bits sg => if (int_lo bits sg * DEC <=? z) && (z <=? int_hi bits sg * DEC)
+                                then ret (VInt (Z.quot z DEC)) s1 else Fail Revert
               | _ => Fail Stuck
               end
           | Floor => ret (VInt (z / DEC)) s1
